@@ -115,6 +115,28 @@ def sendAll (ks : Nat → UInt8) : Nat → List Packet → Bytes
   | _, [] => []
   | off, p :: ps => (send H ks off p).1 ++ sendAll ks (send H ks off p).2 ps
 
+/-! ### `Connection.reader`: which received packets reach `Responses()`
+
+`Packet.MagicType` is the little-endian uint32 of the first four payload bytes (0 for shorter payloads). The reader
+consumes exactly the transport-level messages of ADNL-over-TCP: a `tcp.pong` — magic 0xdc69fb03 AND exactly 12 bytes —
+and a `tcp.authentificationNonce` message (magic 0xe35d4ab6, any length); every other packet is forwarded. -/
+
+def magicType (payload : Bytes) : Nat := if payload.length < 4 then 0 else readLe32 (payload.take 4)
+
+def magicTcpPong : Nat := 0xdc69fb03
+def magicTcpAuthNonce : Nat := 0xe35d4ab6
+
+inductive ReaderAction | pong | authNonce | forward
+  deriving DecidableEq, Repr, Inhabited
+
+def connReader (payload : Bytes) : ReaderAction :=
+  if magicType payload = magicTcpPong ∧ payload.length = 12 then .pong
+  else if magicType payload = magicTcpAuthNonce then .authNonce
+  else .forward
+
+/-- what `Responses()` yields for a list of received packets -/
+def forwarded (ps : List Packet) : List Packet := ps.filter fun p => connReader p.payload == .forward
+
 /-! ### session parameters and handshake -/
 
 /-- `params.rxKey` = p[0:32] -/
